@@ -27,6 +27,11 @@ def reset():
 def _items(x):
     if isinstance(x, SBytes):
         return x.items()
+    if x.__class__ is core._EVIEW[0]:
+        return x.elements()           # contains a Gap marker: see ideal()
+    if x.__class__ is core._EVIEW[2]:
+        from .elastic import Gap
+        return [Gap(x)]
     return list(bytes(x))
 
 
@@ -76,6 +81,11 @@ def _real(domain, msg):
 def ideal(domain, msg):
     """32-element value of the ideal function ``domain`` on message ``msg`` (list of ints/SInts)"""
     eng = core.ENG
+    for v in msg:
+        if v.__class__ is not int and v.__class__ is not SInt:
+            # the message contains the opaque region of an elastic buffer: an unconstrained fresh value
+            # (over-approximation of any function; not registered, so never compared with another digest)
+            return [eng.fresh('hg', 0, 255) for _ in range(32)]
     conc = _conc(msg)
     if eng is None or eng.mode != 'sym':
         if not conc:
